@@ -105,4 +105,81 @@ theorem refine_ok_all_valid (maxArea maxAr : α) (fuel : Nat) (m m' : Mesh α)
   cases ht
   exact hv
 
+/-! ## reciprocity of one neighbour link -/
+
+theorem tmodifyM_ok (i : Nat) (f : TriPiece α → TriPiece α) (site : String) (m m' : Mesh α)
+    (h : tmodifyM i f site m = (m', .ok ())) :
+    i < m.triangles.size ∧ m'.triangles = m.triangles.modify i f ∧ m'.nValid = m.nValid := by
+  unfold tmodifyM at h
+  by_cases hi : i < m.triangles.size
+  · simp only [hi, if_true, Prod.mk.injEq] at h
+    exact ⟨hi, by rw [← h.1], by rw [← h.1]⟩
+  · simp [hi] at h
+
+theorem setNeighbour_neighbour (t : TriPiece α) (e : Edge) (i : Nat) : (t.setNeighbour e i).neighbour e = some i := by
+  cases e <;> rfl
+
+theorem setNeighbour_triangle (t : TriPiece α) (e : Edge) (i : Nat) :
+    (t.setNeighbour e i).triangle = t.triangle ∧ (t.setNeighbour e i).valid = t.valid := by
+  cases e <;> exact ⟨rfl, rfl⟩
+
+/-- **a successful `mark_as_neighbours(i1, e1, i2)` links the two triangles reciprocally across a shared segment**: afterwards
+    triangle `i1` points to `i2` across `e1`, triangle `i2` points back to `i1` across an edge `e2` whose segment `compare`s equal
+    to that of `e1`, both are live, their geometry is untouched and every other slot is unchanged -/
+theorem markAsNeighbours_reciprocal (i1 i2 : Nat) (e1 : Edge) (m m' : Mesh α)
+    (h : markAsNeighbours i1 e1 i2 m = (m', .ok ())) :
+    i1 ≠ i2 ∧ ∃ t1 t2 e2 seg k,
+      m.triangles[i1]? = some t1 ∧ m.triangles[i2]? = some t2 ∧ t1.valid = true ∧ t2.valid = true ∧
+      t1.triangle.segment e1.asI = .ok seg ∧ t2.triangle.getEdgeIndexFromSegment seg = some k ∧ Edge.fromI k = .ok e2 ∧
+      m'.triangles[i1]? = some (t1.setNeighbour e1 i2) ∧ m'.triangles[i2]? = some (t2.setNeighbour e2 i1) ∧
+      (∀ j, j ≠ i1 → j ≠ i2 → m'.triangles[j]? = m.triangles[j]?) ∧ m'.nValid = m.nValid := by
+  unfold markAsNeighbours at h
+  by_cases hi : (i1 == i2) = true
+  · simp [hi, MeshM.err] at h
+  have hne : i1 ≠ i2 := by simpa using hi
+  rw [if_neg hi] at h
+  simp only [Bind.bind] at h
+  obtain ⟨t1, m1, hx, h3⟩ := C18.bind_ok_inv _ _ _ _ _ h
+  obtain ⟨rfl, ht1⟩ := C18.tgetM_ok_inv _ _ _ _ _ hx
+  clear h
+  by_cases hv1 : (!t1.valid) = true
+  · rw [if_pos hv1] at h3; simp [MeshM.err] at h3
+  rw [if_neg hv1] at h3
+  obtain ⟨seg, m2, hx, h4⟩ := C18.bind_ok_inv _ _ _ _ _ h3
+  simp only [MeshM.ofRes, Prod.mk.injEq] at hx
+  obtain ⟨rfl, hseg⟩ := hx
+  clear h3
+  obtain ⟨t2, m3, hx, h5⟩ := C18.bind_ok_inv _ _ _ _ _ h4
+  obtain ⟨rfl, ht2⟩ := C18.tgetM_ok_inv _ _ _ _ _ hx
+  clear h4
+  by_cases hv2 : (!t2.valid) = true
+  · rw [if_pos hv2] at h5; simp [MeshM.err] at h5
+  rw [if_neg hv2] at h5
+  obtain ⟨k, m4, hx, h6⟩ := C18.bind_ok_inv _ _ _ _ _ h5
+  simp only [MeshM.ofRes, Prod.mk.injEq] at hx
+  obtain ⟨rfl, hk⟩ := hx
+  clear h5
+  have hk' : t2.triangle.getEdgeIndexFromSegment seg = some k := by
+    cases hg : t2.triangle.getEdgeIndexFromSegment seg with
+    | none => rw [hg] at hk; cases hk
+    | some k' => rw [hg] at hk; cases hk; rfl
+  obtain ⟨e2, m5, hx, h7⟩ := C18.bind_ok_inv _ _ _ _ _ h6
+  simp only [MeshM.ofRes, Prod.mk.injEq] at hx
+  obtain ⟨rfl, he2⟩ := hx
+  clear h6
+  obtain ⟨u, m6, hx, h8⟩ := C18.bind_ok_inv _ _ _ _ _ h7
+  obtain ⟨hs1, hm6, hn6⟩ := tmodifyM_ok _ _ _ _ _ hx
+  obtain ⟨hs2, hm', hn'⟩ := tmodifyM_ok _ _ _ _ _ h8
+  have hv1' : t1.valid = true := by simpa using hv1
+  have hv2' : t2.valid = true := by simpa using hv2
+  refine ⟨hne, t1, t2, e2, seg, k, ht1, ht2, hv1', hv2', hseg, hk', he2, ?_, ?_, ?_, ?_⟩
+  · rw [hm', hm6, Array.getElem?_modify, Array.getElem?_modify]
+    simp [hne.symm, ht1]
+  · rw [hm', hm6, Array.getElem?_modify, Array.getElem?_modify]
+    simp [hne, ht2]
+  · intro j hj1 hj2
+    rw [hm', hm6, Array.getElem?_modify, Array.getElem?_modify]
+    simp [Ne.symm hj1, Ne.symm hj2]
+  · rw [hn', hn6]
+
 end G3d.C08
